@@ -3,6 +3,8 @@ package baseapp
 import (
 	"bytes"
 
+	"github.com/tendermint/tendermint/node"
+
 	abci "github.com/tendermint/tendermint/abci/types"
 	"github.com/tendermint/tendermint/libs/log"
 	dbm "github.com/tendermint/tm-db"
@@ -42,6 +44,13 @@ func vOpenApp(db dbm.DB) *vRealApp {
 		m := msg.(vKVMsg)
 		ctx.KVStore(v.data).Set(m.k, m.v)
 		return sdk.Result{}
+	})
+	// an ante handler that, like the real fee deduction, writes to state for every transaction it lets through
+	app.SetAnteHandler(func(ctx sdk.Ctx, tx sdk.Tx, txBz []byte, n *node.Node, simulate bool) (sdk.Ctx, sdk.Result, bool) {
+		st := ctx.KVStore(v.data)
+		cnt := st.Get([]byte("fees-collected"))
+		st.Set([]byte("fees-collected"), append(cnt, 1))
+		return ctx, sdk.Result{}, false
 	})
 	if err := app.LoadLatestVersion(v.main); err != nil {
 		panic(err)
@@ -101,7 +110,13 @@ func VerifC01_AppRestart() {
 // position of a block (before BeginBlock, between the transactions, after EndBlock) and at symbolic heights - never
 // change state: the replica that serves them commits the same app hashes as one that does not, and a later
 // transaction sees what it would have seen.
-func VerifC11_ReadOnlyCallsOnRealApp() {
+func VerifC11_ReadOnlyCallsOnRealApp() { vReadOnlyCalls("C11.readonly") }
+
+// VerifC01_TrafficIndependence: the same, read as determinism: two replicas executing the same blocks commit the same
+// app hashes whatever CheckTx / Simulate / Query traffic each of them serves in between.
+func VerifC01_TrafficIndependence() { vReadOnlyCalls("C01.traffic") }
+
+func vReadOnlyCalls(p string) {
 	a, b := vOpenApp(dbm.NewMemDB()), vOpenApp(dbm.NewMemDB())
 	for _, v := range []*vRealApp{a, b} {
 		v := v
@@ -150,9 +165,9 @@ func VerifC11_ReadOnlyCallsOnRealApp() {
 			readonly(a, h-1)
 		}
 		ha := a.app.Commit().Data
-		zz.Assert("C11.readonly.same-app-hash-as-undisturbed-replica", bytes.Equal(ha, hb))
+		zz.Assert(p+".same-app-hash-as-undisturbed-replica", bytes.Equal(ha, hb))
 	}
 	qa := a.app.Query(abci.RequestQuery{Path: "/store/data/key", Data: []byte("a"), Height: 2})
-	zz.Assert("C11.readonly.committed-value-is-the-delivered-one", bytes.Equal(qa.Value, []byte("3")))
-	zz.Reach("C11.readonly.end")
+	zz.Assert(p+".committed-value-is-the-delivered-one", bytes.Equal(qa.Value, []byte("3")))
+	zz.Reach(p + ".end")
 }
